@@ -1300,9 +1300,21 @@ impl<'r> Gen<'r> {
                 (o, "rotate90/reflect")
             }
             2 => {
-                let s: Vec<f32> = (0..3)
+                let mut s: Vec<f32> = (0..3)
                     .map(|_| *rng.pick(&[1.0f32, 1.0, 2.0, 0.5, -1.0, 1.0, 0.0, -2.0]))
                     .collect();
+                // extreme powers of two (still exact): a run of such scales
+                // collapses into a matrix whose entries are far below
+                // f32::EPSILON or far above 1/EPSILON
+                if rng.chance(0.3) {
+                    let sign = if rng.chance(0.5) { 1 } else { -1 };
+                    let uniform = rng.chance(0.5);
+                    let e0 = sign * rng.range(8, 30) as i32;
+                    for e in s.iter_mut() {
+                        let k = if uniform { e0 } else { sign * rng.range(8, 30) as i32 };
+                        *e = (2.0f32).powi(k) * if rng.chance(0.2) { -1.0 } else { 1.0 };
+                    }
+                }
                 let a: Affine3<f32> =
                     nalgebra::convert(nalgebra::Scale3::new(s[0], s[1], s[2]));
                 (affine_to_mat(&a), "scale")
@@ -1363,8 +1375,10 @@ impl<'r> Gen<'r> {
         };
         let scale = |rng: &mut Rng| -> Affine3<f32> {
             let mut s = [0f32; 3];
+            let extreme = rng.chance(0.12);
+            let sign = if rng.chance(0.5) { 1.0 } else { -1.0 };
             for e in s.iter_mut() {
-                *e = (2.0f64).powf(rng.uniform(-2.0, 2.0)) as f32;
+                *e = (2.0f64).powf(if extreme { sign * rng.uniform(8.0, 30.0) } else { rng.uniform(-2.0, 2.0) }) as f32;
                 if rng.chance(0.2) {
                     *e = -*e;
                 }
